@@ -48,6 +48,8 @@ S["C13"] = dict(title="Hostile broker input: no panic, reset on violation, no fo
   outside=["streams of several hostile packets (error => offline, success => aligned is the inductive step)","bodies longer than the bound","wall-clock waiting"])
 _stream = H("verifH_C06_stream", "well-formed stream of 2 packets through real bufio (B=16), arbitrary read cuts; deliveries and acknowledgements vs a reference receiver (alignment, duplicates, PUBREL)",
     T({"packets":2,"cuts":1,"expiries":0,"big":0}, time_sec=900, reach=["slices","stream-end"]), T({"packets":2,"cuts":1,"expiries":0,"big":1}, time_sec=2400, maxpaths=2000000, reach=["slices","big-read","big-skipped","stream-end"]), ("slices","stream-end"))
+_stream_pre = H("verifH_C06_stream", "same with a delivery cycle left open by an earlier connection or process (marker of an arbitrary identifier already stored): 2 packets incl. big ones, no cuts; a duplicate of the open cycle (big or not) is skipped, answered, and what follows is handled normally",
+    T({"packets":2,"cuts":0,"expiries":0,"big":1,"preowned":1}, time_sec=900, reach=["slices","big-read","big-skipped","stream-end"]), T({"packets":2,"cuts":1,"expiries":0,"big":0,"preowned":1}, time_sec=2400, maxpaths=2000000, reach=["slices","stream-end"]), ("slices","stream-end"))
 _stream1 = H("verifH_C06_stream", "same, one packet, two cuts (expiry inside the first buffer-load of a big message)", T({"packets":1,"cuts":2,"expiries":1,"big":1}, time_sec=600), T({"packets":1,"cuts":3,"expiries":2,"big":1}, time_sec=2400), ("slices","big-read","big-skipped","stream-end","expiry-with-progress"))
 _inasm = ["bufio.Reader executed from SSA with readBufSize scaled to B=16 (the code compares sizes only with readBufSize); topic + 4 <= B",
     "read deadline expiries happen only while a deadline is armed and after progress since arming (the property's premise); the stream ends with EOF",
@@ -57,12 +59,12 @@ S["C06"] = dict(title="Inbound messages are returned byte-exact under any fragme
   bounds={"quick":"B=16; <= 2 packets (PUBLISH q0/q1/q2, PUBREL, PINGRESP), topic 1..2 bytes, payload sizes {0,1,B-h-1..B-h+2,2B+1-h}, <= 1 cut (2 packets) / 2 cuts (1 packet), <= 1 expiry","thorough":"<= 2 cuts with 2 packets, 3 cuts / 2 expiries with 1 packet"},
   outside=["the literal 128 KiB buffer","topics near 65535 bytes","more than 2 packets per stream (alignment after each packet is the inductive step)","CONNACK coalesced with following packets (C18)"])
 _c04steps = H("verifH_C04_steps", "L04.b/c marker Save strictly before PUBREC, marker Delete strictly before PUBCOMP, store or write failure keeps the acknowledgement owed and nothing premature on the wire", T({"wfaults":1,"storefaults":1}), T({"wfaults":2,"storefaults":1}), ("marker-save-failed","marker-delete-failed","pubrec-written","pubrec-write-failed","pubcomp-written","pubcomp-write-failed"))
-S["C04"] = dict(title="Exactly-once reception: delivered once per cycle, handshake always answered", technique=TECH+"; reference receiver as oracle", harnesses=[_c04steps, _stream, _stream1,
+S["C04"] = dict(title="Exactly-once reception: delivered once per cycle, handshake always answered", technique=TECH+"; reference receiver as oracle", harnesses=[_c04steps, _stream, _stream1, _stream_pre,
     H("verifH_C13_packet", "L04.a/c single PUBLISH/PUBREL against marker state", T({"W":0,"maxbody":5}), T({"W":1,"maxbody":7}, time_sec=1500), ("legit-duplicate","legit-pubrel","legit-publish"))],
   assumptions=_inasm+["the documented BUG (marker Save failed and the process stopped before recovery) is outside, as the property says"],
   bounds={"quick":"<= 2 inbound packets per stream incl. retransmission of an owned identifier and PUBREL, identifiers free 16-bit","thorough":"as C06 thorough"},
   outside=["restart between delivery and marker Save (see C02 crash-point harness)","BigMessage-sized duplicates beyond 2B+1"])
-S["C07"] = dict(title="Inbound acknowledgements go out only after the application took ownership", technique=TECH+"; trace property of consecutive ReadSlices invocations", harnesses=[_c04steps, _stream, _stream1],
+S["C07"] = dict(title="Inbound acknowledgements go out only after the application took ownership", technique=TECH+"; trace property of consecutive ReadSlices invocations", harnesses=[_c04steps, _stream, _stream1, _stream_pre],
   assumptions=_inasm,
   bounds={"quick":"<= 2 inbound packets per stream, every return followed by one more ReadSlices","thorough":"as C06 thorough"},
   outside=["concurrent outbound requests (wire integrity is C08's token argument)","write failures of the acknowledgement itself (covered in C10's harness)"])
